@@ -262,6 +262,7 @@ def run(ctx):
     n_ds = 20 if quick else 100
     ctx.count(f'environment:cartopy PlateCarree stand-in {"installed" if cartopy_standin() else "not needed"}')
     exprs, plans = [], []
+    pick_exprs, pick_plans = [], []
     for n in range(n_ds):
         fam = gen.FAMILIES[n % len(gen.FAMILIES)]
         kw = {'invalid': False} if fam != 'cf1d' else {}
@@ -394,6 +395,25 @@ def run(ctx):
             if bad:
                 ctx.report('property', bad, case)
                 continue
+            # ---- which vertex each end of a piece is measured from: the model's pick on the vertices' normalised positions
+            # (exact rationals of the floats shapely returns), then vertex distance + distance from that vertex
+            with warnings.catch_warnings():
+                warnings.simplefilter('ignore')
+                tpts = attempt(lambda: [(float(p.distance_normalised), float(p.distance_metres)) for p in t.points])
+            if tpts[0] == 'ok' and len(tpts[1]) == len(pts):
+                want_norm = [float(line.project(shapely.Point(p), normalized=True)) for p in pts]
+                if [a for a, _ in tpts[1]] != want_norm:
+                    ctx.report('correspondence', f'the vertices carry normalised positions {[a for a, _ in tpts[1]]}, their positions '
+                               f'along the line are {want_norm}', case, found_input=False)
+                    continue
+                fq = lambda x: (Fraction(x).numerator, Fraction(x).denominator)     # noqa: E731
+                nlit = '[' + '; '.join(f'(({a})%Z, ({b})%Z)' for a, b in map(fq, want_norm)) + ']'
+                for s1 in segs[:6]:
+                    for what, ptn, got in (('start', s1.start_point, s1.start_distance), ('end', s1.end_point, s1.end_distance)):
+                        tq = float(line.project(ptn, normalized=True))
+                        a, b = fq(tq)
+                        pick_exprs.append(f'(pick_index {nlit} (({a})%Z, ({b})%Z))')
+                        pick_plans.append((case, what, (float(ptn.x), float(ptn.y)), got, tpts[1], pts))
             # ---- the data prepared for plotting
             with warnings.catch_warnings():
                 warnings.simplefilter('ignore')
@@ -415,6 +435,19 @@ def run(ctx):
                                    for c, a, b in model_pieces) + ']'
             exprs.append(f'(show_segments {lit})')
             plans.append((case, [(c, min(a, b), max(a, b)) for c, a, b in model_pieces], lin))
+    picks = coq_eval_sharded(['Model.TransectDist'], pick_exprs, shard=max(20, len(pick_exprs) // 12), workers=12)
+    ctx.leg('vertex_picks', len(pick_exprs))
+    import pyproj
+    geod = pyproj.Geod(ellps='WGS84')
+    for (case, what, xy, got, tp, pts), k in zip(pick_plans, picks):
+        if k is None:
+            ctx.report('correspondence', f'model: no vertex lies at or before the {what} point {xy}', case, found_input=False)
+            continue
+        k = int(k.v)
+        want_d = tp[k][1] + geod.inv(pts[k][0], pts[k][1], xy[0], xy[1])[2]
+        if abs(got - want_d) > 1e-6 * want_d + 1e-2:
+            ctx.report('correspondence', f'{what} point {xy}: the model measures it from vertex {k} ({want_d!r} m), the '
+                       f'implementation reports {got!r} m', case, found_input=False)
     model = coq_eval_sharded(['Model.Transect'], exprs, shard=max(10, len(exprs) // 12), workers=12)
     ctx.leg('orderings', len(exprs))
     for (case, want, lin), mres in zip(plans, model):
